@@ -291,6 +291,7 @@ type vfEndpoint struct {
 	a       *Association
 	connErr error
 	connRet bool
+	created func(*Association) // set by start(): receives the association from the creation hook
 	streams map[int]*Stream
 	inc     map[int]int // incarnation counter per sid (accept/open events)
 	lastSnap string
@@ -430,6 +431,7 @@ func vfNewWorld(o vfWorldOpt) *vfWorld {
 	w := &vfWorld{tr: o.Trace, t0: time.Now(), activity: make(chan struct{}, 1),
 		msgs: map[int]*vfMsg{}, byHash: map[[32]byte]int{}, frags: map[[32]byte][]vfFragRef{},
 		rng: rand.New(rand.NewSource(o.Seed)), noSnap: o.NoSnap, snapAll: o.SnapAll, label: o.Label}
+	vfCurTrace = o.Trace
 	cfgs := [2]vfEpCfg{o.A.norm(), o.B.norm()}
 	for i := 0; i < 2; i++ {
 		c := &vfConn{w: w, side: i, inbox: make(chan []byte, 1<<16), closed: make(chan struct{}),
@@ -491,48 +493,47 @@ func (w *vfWorld) options(i int) []AssociationOption {
 
 // start launches the connect call of endpoint i (client or server role) in its own goroutine with
 // the initial TSN and tag pinned. Call quiesce() afterwards.
+func init() {
+	// creation hook (build tag verif): hand every association built over one of our transports to its world
+	verifOnCreate = func(a *Association) {
+		if c, ok := a.netConn.(*vfConn); ok && c.w != nil {
+			if f := c.w.ep[c.side].created; f != nil {
+				f(a)
+			}
+		}
+	}
+}
+
 func (w *vfWorld) start(i int) {
 	e := w.ep[i]
 	saved := globalMathRandomGenerator
 	globalMathRandomGenerator = &vfScriptedRand{vals: []uint32{e.cfg.InitTSN, e.cfg.Tag}, fall: rand.New(rand.NewSource(int64(i) + 77))}
 	done := make(chan struct{})
+	var once sync.Once
+	e.created = func(a *Association) {
+		e.a = a
+		once.Do(func() { close(done) })
+	}
 	go func() {
-		var a *Association
 		var err error
-		// Build the association object first so that the harness can observe it while the
-		// connect call is still blocked (same code path as ClientWithOptions/ServerWithOptions).
+		// The PUBLIC connect functions are called; the association object reaches the harness through the
+		// build-tag guarded creation hook (verifOnCreate), keyed by the transport it was given.
 		opts := w.options(i)
+		w.tr.emit(map[string]any{"ev": "api", "ep": i, "op": "connect-call", "t": w.now()})
 		if e.cfg.Server {
 			so := make([]ServerOption, len(opts))
 			for k, o := range opts {
 				so[k] = o
 			}
-			a, err = createServerAssociation(so...)
-			if err == nil {
-				e.a = a
-				a.initServer()
-			}
+			_, err = ServerWithOptions(so...)
 		} else {
 			co := make([]ClientOption, len(opts))
 			for k, o := range opts {
 				co[k] = o
 			}
-			a, err = createClientAssociation(co...)
-			if err == nil {
-				e.a = a
-				a.initClient()
-			}
+			_, err = ClientWithOptions(co...)
 		}
-		close(done)
-		w.tr.emit(map[string]any{"ev": "api", "ep": i, "op": "connect-call", "t": w.now()})
-		if err == nil {
-			select {
-			case herr := <-a.handshakeCompletedCh:
-				err = herr
-			case <-a.readLoopCloseCh:
-				err = ErrAssociationClosedBeforeConn
-			}
-		}
+		once.Do(func() { close(done) })
 		w.mu.Lock()
 		e.connErr = err
 		e.connRet = true
